@@ -1,2 +1,3 @@
 pub mod c03;
 pub mod c05;
+pub mod c18;
